@@ -319,6 +319,8 @@ func (n *Normalizer) inlineCall(fn *Function, call *Call) {
 // (`if err := helper(); err != nil`), back into plain control flow.
 func threadPhis(fn *Function, nonNil func(Value) bool) bool {
 	changed := false
+	// per phi of a bypassed block: the value it stands for at each split-edge block created so far
+	altDefs := map[*Phi]map[*BasicBlock]Value{}
 	for again, rounds := true, 0; again && rounds < 32; rounds++ {
 		again = false
 		for _, M := range fn.Blocks {
@@ -447,7 +449,11 @@ func threadPhis(fn *Function, nonNil func(Value) bool) bool {
 					ph.Edges = append(ph.Edges[:k:k], ph.Edges[k+1:]...)
 				}
 				for i, ph := range phis {
-					repairUses(fn, ph, M, E, vals[i])
+					if altDefs[ph] == nil {
+						altDefs[ph] = map[*BasicBlock]Value{}
+					}
+					altDefs[ph][E] = vals[i]
+					repairUses(fn, ph, M, altDefs[ph])
 				}
 				changed, again = true, true
 				k--
@@ -616,17 +622,19 @@ func usedOutside(fn *Function, v Value, M *BasicBlock) bool {
 }
 
 // repairUses restores the SSA property for phi (defined in M) after control from
-// E may reach its uses without passing M: on that way the value is alt. Uses are
+// the split-edge blocks in alts may reach its uses without passing M: on those ways
+// the value is alts[block]. Uses are
 // rewritten to the reaching definition, with new phis where the two meet.
-func repairUses(fn *Function, phi *Phi, M, E *BasicBlock, alt Value) {
+func repairUses(fn *Function, phi *Phi, M *BasicBlock, alts map[*BasicBlock]Value) {
 	entry := map[*BasicBlock]Value{}
+	depth := 0
 	var atEntry func(b *BasicBlock) Value
 	atExit := func(b *BasicBlock) Value {
-		switch b {
-		case M:
+		if b == M {
 			return phi
-		case E:
-			return alt
+		}
+		if v, ok := alts[b]; ok {
+			return v
 		}
 		return atEntry(b)
 	}
@@ -639,8 +647,14 @@ func repairUses(fn *Function, phi *Phi, M, E *BasicBlock, alt Value) {
 			entry[b] = phi
 			return phi
 		case 1:
-			entry[b] = phi // cut cycles through single-predecessor chains
+			// a reachable cycle always contains a join, whose placeholder phi is memoised before its
+			// operands are resolved; only an unreachable cycle could recurse for ever
+			depth++
+			if depth > 20000 {
+				return phi
+			}
 			v := atExit(b.Preds[0])
+			depth--
 			entry[b] = v
 			return v
 		}
@@ -657,7 +671,7 @@ func repairUses(fn *Function, phi *Phi, M, E *BasicBlock, alt Value) {
 	}
 	var rands []*Value
 	for _, b := range fn.Blocks {
-		if b == M || b == E {
+		if _, isSplit := alts[b]; b == M || isSplit {
 			continue
 		}
 		// snapshot: atEntry may prepend phis to b.Instrs
@@ -839,7 +853,64 @@ func rebuild(fn *Function) {
 func SanityCheck(fn *Function) (ok bool, report string) {
 	var buf reportBuf
 	ok = sanityCheck(fn, &buf)
+	if ok {
+		if msg := checkDominance(fn); msg != "" {
+			return false, msg
+		}
+	}
 	return ok, string(buf)
+}
+
+// checkDominance verifies the SSA property upstream's checker leaves as a TODO:
+// every use is dominated by its definition (phi operands at the predecessor).
+func checkDominance(fn *Function) string {
+	pos := map[Instruction]int{}
+	for _, b := range fn.Blocks {
+		for i, ins := range b.Instrs {
+			pos[ins] = i
+		}
+	}
+	var rands []*Value
+	for _, b := range fn.Blocks {
+		if b == fn.Recover {
+			continue // entered by an implicit edge; upstream's dominator tree does not model it
+		}
+		for i, ins := range b.Instrs {
+			if ph, ok := ins.(*Phi); ok {
+				if len(ph.Edges) != len(b.Preds) {
+					return "phi " + ph.Name() + " in " + b.String() + ": edges/preds mismatch"
+				}
+				for k, e := range ph.Edges {
+					def, ok := e.(Instruction)
+					if !ok || def.Block() == nil || def.Parent() != fn {
+						continue
+					}
+					if !def.Block().Dominates(b.Preds[k]) {
+						return "phi operand " + e.Name() + " of " + ph.Name() + " does not dominate predecessor " + b.Preds[k].String()
+					}
+				}
+				continue
+			}
+			rands = ins.Operands(rands[:0])
+			for _, r := range rands {
+				if *r == nil {
+					continue
+				}
+				def, ok := (*r).(Instruction)
+				if !ok || def.Block() == nil || def.Parent() != fn {
+					continue
+				}
+				if def.Block() == b {
+					if pos[def] >= i {
+						return "use of " + (*r).Name() + " before its definition in " + b.String()
+					}
+				} else if !def.Block().Dominates(b) {
+					return "definition of " + (*r).Name() + " does not dominate its use in " + b.String()
+				}
+			}
+		}
+	}
+	return ""
 }
 
 type reportBuf []byte
